@@ -60,43 +60,78 @@ theorem pred_msgHeaders : (fun f : Frame => decide (f.sid > 0) && f.ty == tyHead
   · have h' : 0 < f.sid := by omega
     simp [h, h', Bool.and_comm]
 
-/-- frames the loop of `build_stream` passes over without decoding -/
-def skipped (f : Frame) : Bool := !(f.ty == tyHeaders || f.ty == tyContinuation)
-
-theorem buildLoop_skip (H : Hpack) : ∀ (l rest : List Frame) (st : H.σ) (a : StreamAcc),
-    l.all skipped = true → buildLoop H st (l ++ rest) a = buildLoop H st rest a := by
+/-- with no block pending, frames that are not HEADERS change nothing -/
+theorem assemble_skip : ∀ (l rest : List Frame) (acc : List Bytes),
+    (∀ g ∈ l, isHeaders g = false) → assembleLoop (l ++ rest) none acc = assembleLoop rest none acc := by
   intro l
   induction l with
-  | nil => intro rest st a _; rfl
+  | nil => intro rest acc _; rfl
   | cons g gs ih =>
-    intro rest st a h
-    simp only [List.all_cons, Bool.and_eq_true] at h
-    have hg : (g.ty == tyHeaders || g.ty == tyContinuation) = false := by
-      have := h.1; simpa [skipped] using this
-    simp only [List.cons_append, buildLoop, hg, Bool.false_eq_true, if_false]
-    exact ih rest st a h.2
+    intro rest acc h
+    have hg : (g.ty == tyHeaders) = false := by rw [ty_eq1]; exact h g (by simp)
+    simp only [List.cons_append, assembleLoop, hg, Bool.false_eq_true, if_false]
+    by_cases hc : (g.ty == tyContinuation) = true
+    · simp only [hc, if_true]
+      exact ih rest acc (fun x hx => h x (List.mem_cons_of_mem _ hx))
+    · simp only [hc, if_false]
+      exact ih rest acc (fun x hx => h x (List.mem_cons_of_mem _ hx))
 
-theorem buildLoop_skip_all (H : Hpack) (l : List Frame) (st : H.σ) (a : StreamAcc)
-    (h : l.all skipped = true) : buildLoop H st l a = some a := by
-  have := buildLoop_skip H l [] st a h
+theorem assemble_skip_all (l : List Frame) (acc : List Bytes) (h : ∀ g ∈ l, isHeaders g = false) :
+    assembleLoop l none acc = some acc := by
+  have := assemble_skip l [] acc h
   rw [List.append_nil] at this
-  rw [this]; rfl
+  rw [this]; simp [assembleLoop]
 
-theorem skipped_iff (g : Frame) : skipped g = (!isHeaders g && !isContinuation g) := by
-  simp only [skipped, isHeaders, isContinuation, ty_eq1, ty_eq9, Bool.not_or]
+/-- the CONTINUATION frames that complete a block (RFC 7540 §6.10) are joined to the pending
+fragment; `k` of them are consumed -/
+theorem assemble_conts (sid : Nat) : ∀ (after : List Frame) (p : Bytes) (acc : List Bytes) (b' : Bytes),
+    continuations sid after = .complete b' →
+    assembleLoop (after.filter (fun g => g.sid == sid)) (some p) acc =
+      assembleLoop ((after.drop ((after.takeWhile (fun g => !endHeaders g)).length + 1)).filter (fun g => g.sid == sid))
+        none (acc ++ [p ++ b']) := by
+  intro after
+  induction after with
+  | nil => intro p acc b' h; simp [continuations] at h
+  | cons g r ih =>
+    intro p acc b' h
+    simp only [continuations] at h
+    by_cases hc : (isContinuation g && g.sid == sid) = true
+    · simp only [hc, if_true] at h
+      simp only [Bool.and_eq_true] at hc
+      have hty1 : (g.ty == tyHeaders) = false := by
+        rw [ty_eq1]; have := hc.1; simp only [isContinuation, beq_iff_eq] at this; simp [this]
+      have hty9 : (g.ty == tyContinuation) = true := by rw [ty_eq9]; exact hc.1
+      simp only [List.filter_cons, hc.2, if_true, assembleLoop, hty1, hty9, Bool.false_eq_true, if_false, flag4]
+      by_cases he : endHeaders g = true
+      · have he' : flagSet g.flags 4 = true := he
+        simp only [he, if_true] at h
+        cases h
+        simp [he', List.takeWhile, he]
+      · have he0 : endHeaders g = false := by simpa using he
+        have he' : flagSet g.flags 4 = false := he0
+        simp only [he0, Bool.false_eq_true, if_false] at h
+        cases hr : continuations sid r with
+        | complete b'' =>
+          rw [hr] at h
+          simp only at h
+          cases h
+          simp only [he', Bool.false_eq_true, if_false]
+          rw [ih (p ++ g.payload) acc b'' hr]
+          simp [List.takeWhile, he0, List.append_assoc]
+        | incomplete => rw [hr] at h; simp at h
+        | malformed => rw [hr] at h; simp at h
+    · have hc' : (isContinuation g && g.sid == sid) = false := by simpa using hc
+      simp only [hc', Bool.false_eq_true, if_false] at h
+      cases h
 
-theorem fragment_plain (f : Frame) (h1 : padded f = false) (h2 : hasPriority f = false) :
-    headersFragment f = some f.payload := by
-  simp [headersFragment, h1, h2]
-
-/-- the message's HEADERS frame carries the whole block, unpadded: the loop of `build_stream`
-decodes exactly that block, once, with a fresh decoder -/
-theorem buildStream_plain (H : Hpack) (frames : List Frame) (f : Frame) (after : List Frame) (b : Bytes)
+/-- a complete header block for the message (RFC 7540 §6.2/§6.10), nothing header-bearing on the
+stream after it: the first loop of `build_stream` produces exactly that one block, and it is decoded
+once with a fresh decoder -/
+theorem buildStream_block (H : Hpack) (frames : List Frame) (f : Frame) (after : List Frame) (b : Bytes)
     (hs : List Field) (σ' : H.σ)
     (hblk : primaryBlock frames = some (f, after, .complete b))
     (hdec : H.dec H.init b = (some hs, σ'))
-    (hlater : noLaterBlocks f after = true) (hstray : noStrayContinuation f frames = true)
-    (k1 : KF.C16.headersPaddedOrPriority frames = false) (k2 : KF.C16.headersContinued frames = false) :
+    (hlater : noLaterBlocks f after = true) :
     findPrimary frames = some f.sid ∧
     buildStream H f.sid frames = some ((toHdrs hs).foldl StreamAcc.add {}) := by
   unfold primaryBlock at hblk
@@ -108,15 +143,6 @@ theorem buildStream_plain (H : Hpack) (frames : List Frame) (f : Frame) (after :
     simp only [Option.map_some, Option.some.injEq, Prod.mk.injEq] at hblk
     obtain ⟨e1, e2, hb⟩ := hblk
     subst e1; subst e2
-    unfold KF.C16.headersPaddedOrPriority at k1
-    unfold KF.C16.headersContinued at k2
-    rw [hfw] at k1 k2
-    simp only [Bool.or_eq_false_iff, Bool.not_eq_false'] at k1 k2
-    have hbp : headerBlock f' after' = .complete f'.payload := by
-      simp [headerBlock, fragment_plain f' k1.1 k1.2, k2]
-    rw [hbp] at hb
-    have hbe : b = f'.payload := by cases hb; rfl
-    subst hbe
     obtain ⟨hsplit, hpf⟩ := firstWithRest_split isMsgHeaders frames f' after' hfw
     have hsid : f'.sid ≠ 0 := by
       simp only [isMsgHeaders, Bool.and_eq_true, bne_iff_ne] at hpf
@@ -127,16 +153,14 @@ theorem buildStream_plain (H : Hpack) (frames : List Frame) (f : Frame) (after :
     refine ⟨?_, ?_⟩
     · unfold findPrimary
       rw [pred_msgHeaders, find_of_firstWithRest _ _ _ _ hfw]; rfl
-    · unfold buildStream
-      -- split the filtered frame list around f'
-      have hfilter : frames.filter (fun g => g.sid == f'.sid) =
-          (beforePrimary frames).filter (fun g => g.sid == f'.sid) ++ f' :: after'.filter (fun g => g.sid == f'.sid) := by
+    · have hfilter : frames.filter (fun g => g.sid == f'.sid) =
+          (frames.takeWhile (fun g => !isMsgHeaders g)).filter (fun g => g.sid == f'.sid) ++
+            f' :: after'.filter (fun g => g.sid == f'.sid) := by
         conv => lhs; rw [hsplit]
         rw [List.filter_append, List.filter_cons]
-        simp [beforePrimary]
-      rw [hfilter]
-      have hpre : ((beforePrimary frames).filter (fun g => g.sid == f'.sid)).all skipped = true := by
-        rw [List.all_eq_true]
+        simp
+      have hpre : ∀ g ∈ (frames.takeWhile (fun g => !isMsgHeaders g)).filter (fun g => g.sid == f'.sid),
+          isHeaders g = false := by
         intro g hg
         rw [List.mem_filter] at hg
         obtain ⟨hg1, hg2⟩ := hg
@@ -144,35 +168,57 @@ theorem buildStream_plain (H : Hpack) (frames : List Frame) (f : Frame) (after :
         have hnot : isMsgHeaders g = false := by
           have := mem_takeWhile _ _ _ hg1
           simpa using this
-        have hnh : isHeaders g = false := by
-          simp only [isMsgHeaders, Bool.and_eq_false_iff] at hnot
-          rcases hnot with h | h
-          · exact h
-          · exfalso
-            have : g.sid = 0 := by simpa using h
-            exact hsid (hgs ▸ this)
-        have hnc : isContinuation g = false := by
-          unfold noStrayContinuation at hstray
-          rw [List.all_eq_true] at hstray
-          have := hstray g hg1
-          simp only [Bool.not_eq_true', Bool.and_eq_false_iff] at this
-          rcases this with h | h
-          · exact h
-          · exfalso; simp [hgs] at h
-        rw [skipped_iff]; simp [hnh, hnc]
-      have hpost : (after'.filter (fun g => g.sid == f'.sid)).all skipped = true := by
-        unfold noLaterBlocks contCount at hlater
-        simp only [k2, if_true, List.drop_zero] at hlater
-        rw [List.all_eq_true] at hlater ⊢
-        intro g hg
-        have := hlater g hg
-        rw [skipped_iff]; exact this
-      rw [buildLoop_skip H _ _ _ _ hpre]
-      have hty : (f'.ty == tyHeaders || f'.ty == tyContinuation) = true := by
-        have : (f'.ty == tyHeaders) = true := by rw [ty_eq1]; exact hhd
-        simp [this]
-      simp only [buildLoop, hty, if_true, hdec]
-      exact buildLoop_skip_all H _ _ _ hpost
+        simp only [isMsgHeaders, Bool.and_eq_false_iff] at hnot
+        rcases hnot with h | h
+        · exact h
+        · exfalso
+          have : g.sid = 0 := by simpa using h
+          exact hsid (hgs ▸ this)
+      -- the block
+      have hassemble : assembleLoop (f' :: after'.filter (fun g => g.sid == f'.sid)) none [] = some [b] := by
+        have hty : (f'.ty == tyHeaders) = true := by rw [ty_eq1]; exact hhd
+        unfold headerBlock at hb
+        simp only [assembleLoop, hty, if_true, fragmentOf_eq, flag4]
+        cases hfrag : headersFragment f' with
+        | none => rw [hfrag] at hb; simp at hb
+        | some frag =>
+          rw [hfrag] at hb
+          simp only at hb ⊢
+          unfold noLaterBlocks contCount at hlater
+          by_cases he : endHeaders f' = true
+          · have he' : flagSet f'.flags 4 = true := he
+            simp only [he, if_true] at hb hlater
+            cases hb
+            simp only [he', if_true, List.drop_zero] at hlater ⊢
+            rw [List.all_eq_true] at hlater
+            rw [assemble_skip_all]
+            · simp
+            · intro g hg
+              have := hlater g hg
+              simp only [Bool.and_eq_true, Bool.not_eq_true'] at this
+              exact this.1
+          · have he0 : endHeaders f' = false := by simpa using he
+            have he' : flagSet f'.flags 4 = false := he0
+            simp only [he0, Bool.false_eq_true, if_false] at hb hlater
+            simp only [he', Bool.false_eq_true, if_false]
+            cases hr : continuations f'.sid after' with
+            | complete b' =>
+              rw [hr] at hb
+              simp only at hb
+              cases hb
+              rw [assemble_conts f'.sid after' frag _ b' hr]
+              rw [List.all_eq_true] at hlater
+              rw [assemble_skip_all]
+              · simp
+              · intro g hg
+                have := hlater g hg
+                simp only [Bool.and_eq_true, Bool.not_eq_true'] at this
+                exact this.1
+            | incomplete => rw [hr] at hb; simp at hb
+            | malformed => rw [hr] at hb; simp at hb
+      unfold buildStream
+      rw [hfilter, assemble_skip _ _ _ hpre, hassemble]
+      simp only [decodeBlocks, hdec]
 
 /-! ### the accumulator of `build_stream` -/
 
@@ -293,8 +339,7 @@ theorem fold_headers : ∀ (l : List Hdr) (a : StreamAcc),
 /-! ### from the decoded field list to the reported headers -/
 
 /-- `HttpHeader` as the code builds it / as the specification reports it -/
-def mk (p : Field × Nat) : Hdr :=
-  { name := p.1.1, value := if p.1.2.isEmpty then none else some p.1.2, position := p.2 }
+def mk (p : Field × Nat) : Hdr := { name := p.1.1, value := some p.1.2, position := p.2 }
 def mk' (p : Field × Nat) : Hdr := { name := p.1.1, value := some p.1.2, position := p.2 }
 
 theorem toHdrs_eq (hs : List Field) : toHdrs hs = ((textFields hs).zipIdx).map mk := by
@@ -332,12 +377,7 @@ theorem slot_value (ts : List Field) (n : Bytes) :
   rw [List.filter_map, List.getLast?_map, Option.map_map]
   have h1 : (ts.zipIdx.filter ((fun h => h.name == n) ∘ mk)) = ts.zipIdx.filter (fun p => (fun f : Field => f.1 == n) p.1) := rfl
   rw [h1, ← filter_zipIdx_fst (fun f : Field => f.1 == n) ts, List.getLast?_map, Option.map_map]
-  congr 1
-  funext p
-  simp only [Function.comp, gv, mk]
-  by_cases he : p.1.2.isEmpty = true
-  · simp [he, List.isEmpty_iff.mp he]
-  · simp [he]
+  rfl
 
 theorem special_pseudo (n : Bytes) (h : special n = true) : n.head? = some 58 := by
   simp only [special, Bool.or_eq_true, beq_iff_eq] at h
@@ -462,28 +502,21 @@ theorem lastValue_eq_valueOf (Hs : List Hdr) (key : Bytes) (hk : lowerAscii key 
       simp [this]
   rw [hpred, last_eq_find _ _ hc]
 
-theorem contains_lower_false (l : List Bytes) (n : Bytes) (h : inListIgnoreCase l n = false) :
-    l.contains (lowerAscii n) = false := by
-  unfold inListIgnoreCase at h
-  rw [List.any_eq_false] at h
-  rw [Bool.eq_false_iff]
-  intro hc
-  rw [List.contains_iff_mem] at hc
-  have := h (lowerAscii n) hc
-  simp [eqIgnoreCase, lower_idem] at this
+theorem listedIn_eq (l : List Bytes) (n : Bytes) : listedIn l n = inListIgnoreCase l n := by
+  unfold listedIn inListIgnoreCase eqIgnoreCase
+  congr 1
+  funext e
+  rw [Bool.eq_iff_iff]
+  simp only [beq_iff_eq]
+  exact eq_comm
 
-theorem toSig_eq (ol sl : List Bytes) (Hs : List Hdr) (h : KF.C16.listCase ol sl Hs = false) :
-    toSigHeaders ol sl Hs = Hs.map (sigOf ol sl) := by
+/-- the code's list lookup is the specification's, for every header list -/
+theorem toSig_eq (ol sl : List Bytes) (Hs : List Hdr) : toSigHeaders ol sl Hs = Hs.map (sigOf ol sl) := by
   unfold toSigHeaders
   apply List.map_congr_left
-  intro x hx
-  unfold KF.C16.listCase at h
-  rw [List.any_eq_false] at h
-  have := h x hx
-  simp only [Bool.or_eq_true, not_or, Bool.not_eq_true] at this
+  intro x _
   unfold sigOf
-  simp only [contains_lower_false _ _ this.1, contains_lower_false _ _ this.2, this.1, this.2,
-    Bool.false_eq_true, if_false]
+  simp only [listedIn_eq]
 
 theorem absent_eq (cl : List Bytes) (Hs : List Hdr) : absentHeaders cl Hs = absent cl Hs := by
   simp only [absentHeaders, absent]
